@@ -482,6 +482,25 @@ class G:
         body = r.choice(["y[j] += x[i]", "y[i] += x[j]", f"y[j] = x[i] * {self.const()}"])
         return ["for i in seq(0, n):", f"    for j in seq({lo}, {hi}):", f"        {body}"]
 
+    def m_nested_if(self):
+        """an `if` nested directly in the then- or else-branch of another, with and without
+        else parts (lift_scope / specialize / eliminate_dead_code / fuse targets)."""
+        r = self.r
+        self.use("x", "y", "flag")
+        outer = r.choice(["n > 2", "m < n", "i < 2", "i % 2 == 0"])
+        inner = r.choice(["flag", "i >= 1", "n > 3"])
+        a, b, c = (f"y[i] = x[i] * {self.const()}", f"y[i] = {self.const()}", f"y[i] += {self.const()}")
+        inner_if = [f"if {inner}:", f"    {a}"]
+        if r.random() < 0.5:
+            inner_if += ["else:", f"    {b}"]
+        if r.random() < 0.5:
+            body = [f"if {outer}:"] + ["    " + l for l in inner_if]
+            if r.random() < 0.6:
+                body += ["else:", f"    {c}"]
+        else:
+            body = [f"if {outer}:", f"    {c}", "else:"] + ["    " + l for l in inner_if]
+        return ["for i in seq(0, n):"] + ["    " + l for l in body]
+
     def m_fold(self):
         self.use("x", "y")
         c = self.const()
@@ -495,7 +514,7 @@ class G:
     MOTIFS = [
         "elementwise", "nest2d", "temp", "accum", "stencil", "guard", "small", "vec4", "call", "window",
         "two_loops", "reduce_consts", "repeat", "padded_acc", "row_alloc", "masked", "shift_copy", "else_alloc",
-        "two_ifs", "instr_calls", "sliding", "temp2d", "fold", "prefix", "bcast", "triangular",
+        "two_ifs", "instr_calls", "sliding", "temp2d", "fold", "prefix", "bcast", "triangular", "nested_if",
     ]
 
     # ops whose side conditions are decided by what the motif contains: the session
@@ -529,6 +548,7 @@ class G:
         "prefix": ["fission", "autofission", "fuse", "reorder_stmts", "reorder_loops", "stage_mem", "lift_scope", "divide_loop", "merge_writes"],
         "bcast": ["fission", "autofission", "lift_alloc", "sink_alloc", "autolift_alloc", "reorder_loops", "inline_assign", "expand_dim", "bind_expr", "lift_scope"],
         "triangular": ["reorder_loops", "lift_scope", "divide_loop", "cut_loop", "shift_loop", "fission", "unroll_loop", "mult_loops", "parallelize_loop", "remove_loop", "add_loop"],
+        "nested_if": ["lift_scope", "specialize", "eliminate_dead_code", "fission", "reorder_stmts", "merge_writes", "divide_loop", "cut_loop", "unroll_loop"],
         "config": ["bind_config", "write_config", "delete_config", "reorder_stmts", "fission", "inline", "call_eqv", "fuse"],
         "cfg_rwo": ["delete_config", "write_config", "reorder_stmts", "bind_config", "fission", "lift_scope"],
         "cfg_cond": ["delete_config", "write_config", "bind_config", "reorder_stmts", "lift_scope", "eliminate_dead_code", "specialize"],
